@@ -65,6 +65,28 @@ func runC16(c *Ctx) {
 				mutators = append(mutators, ci)
 			}
 		}
+		if snap != nil && runCall != nil && rev == nil {
+			// the revert-and-burn tail may live in a helper that takes (snapshot, err): judge the helper, and that
+			// every path from run to a return passes the call with this frame's snapshot and error
+			if ok, why := revertTailInHelper(w, fn, snap, runCall, revertedErr); ok {
+				for _, m := range mutators {
+					c.sites++
+					okm := instrDominates(snap, m)
+					what := calleeName(m)
+					if f := callViaField(m); f != nil {
+						what = f.Name()
+					}
+					c.Check(fmt.Sprintf("%s#%s-after-snapshot", fname(fn), what), m.Pos(), okm, ifelse(okm, "dominated by Snapshot()", "a state change of the frame ("+what+") happens before the snapshot is taken: a failing frame leaves it behind"))
+				}
+				c.Pass(fname(fn)+"#reverts-own-snapshot", fn.Pos(), "through a helper: "+why)
+				c.Pass(fname(fn)+"#revert-on-every-error", fn.Pos(), "through a helper: "+why)
+				c.Pass(fname(fn)+"#burns-gas-unless-revert", fn.Pos(), "through a helper: "+why)
+				continue
+			} else if why != "" {
+				c.Fail(fname(fn)+"#frame", fn.Pos(), "the revert tail was moved into a helper that does not keep the discipline: "+why)
+				continue
+			}
+		}
 		if snap == nil || rev == nil || runCall == nil {
 			c.Fail(fname(fn)+"#frame", fn.Pos(), fmt.Sprintf("frame discipline anchors missing (Snapshot=%v RevertToSnapshot=%v run=%v)", snap != nil, rev != nil, runCall != nil))
 			continue
@@ -603,5 +625,120 @@ func c16Variants() []Variant {
 		{Name: "staticcall-not-readonly", File: f, Old: "	ret, err = run(evm, contract, input, true)", New: "	ret, err = run(evm, contract, input, false)", Rule: "C16.F2", Construct: "StaticCall#readOnly-argument"},
 		{Name: "suicide-without-destroying", File: "core/vm/instructions.go", Old: "	interpreter.evm.StateDB.Suicide(contract.Address())\n", New: "", Rule: "C16.F3", Construct: "opSuicide"},
 		{Name: "keep-gas-on-failure", File: f, Old: "	ret, err = run(evm, contract, input, false) //if contract.Code is empty, return nil, nil\n\n	// When an error was returned by the EVM or when setting the creation code\n	// above we revert to the snapshot and consume any gas remaining. Additionally\n	// when we're in homestead this also counts for code storage gas errors.\n	if err != nil {\n		evm.StateDB.RevertToSnapshot(snapshot)\n		if err != errExecutionReverted {\n			contract.UseGas(contract.Gas)\n		}\n	}", New: "	ret, err = run(evm, contract, input, false) //if contract.Code is empty, return nil, nil\n\n	if err != nil {\n		evm.StateDB.RevertToSnapshot(snapshot)\n	}", Rule: "C16.F1", Construct: "Call#burns-gas"},
+	}
+}
+
+// revertTailInHelper: fn hands its snapshot and its error to a small helper on
+// every path after run, and the helper reverts to that snapshot exactly when
+// the error is non-nil and burns contract.Gas unless the error is
+// errExecutionReverted. Returns (false, "") when fn calls no such helper.
+func revertTailInHelper(w *World, fn *ssa.Function, snap, runCall ssa.CallInstruction, revertedErr *ssa.Global) (bool, string) {
+	for _, hc := range callInstrs(fn) {
+		h := hc.Common().StaticCallee()
+		if !isSmallHelper(h) {
+			continue
+		}
+		var rev ssa.CallInstruction
+		for _, ci := range callInstrs(h) {
+			if o := calleeObj(ci); o != nil && o.Name() == "RevertToSnapshot" {
+				rev = ci
+			}
+		}
+		if rev == nil {
+			continue
+		}
+		// parameters of the helper: snapshot and error
+		sp, isP := stripConvNoBind(callArgs(rev)[0]).(*ssa.Parameter)
+		if !isP {
+			return false, fname(h) + " reverts to something else than its snapshot parameter"
+		}
+		var ep *ssa.Parameter
+		for _, p := range h.Params {
+			if isErrorType(p.Type()) {
+				ep = p
+			}
+		}
+		if ep == nil {
+			return false, fname(h) + " has no error parameter"
+		}
+		argOf := func(p *ssa.Parameter) ssa.Value {
+			for i, q := range h.Params {
+				if q == p && i < len(hc.Common().Args) {
+					return hc.Common().Args[i]
+				}
+			}
+			return nil
+		}
+		if a := argOf(sp); a == nil || stripConvNoBind(a) != ssa.Value(snap.Value()) {
+			return false, "the helper is not given this frame's snapshot"
+		}
+		// the error handed over is the frame's result
+		errOK := false
+		for _, b := range fn.Blocks {
+			if r, ok := b.Instrs[len(b.Instrs)-1].(*ssa.Return); ok && b != fn.Recover && runCall.Block().Dominates(b) {
+				if i := errResultIdx(fn); i >= 0 && stripConvNoBind(r.Results[i]) == stripConvNoBind(argOf(ep)) {
+					errOK = true
+				}
+				if !instrDominates(hc, r) {
+					return false, "a return after run does not pass the helper"
+				}
+			}
+		}
+		if !errOK {
+			return false, "the helper is not given the error the frame returns"
+		}
+		// inside the helper: revert exactly under err != nil
+		delete(paramBind, ep)
+		delete(paramBind, sp)
+		atoms := atomsOf(factsAtInstr(rev))
+		if len(atoms) != 1 || atoms[0].Kind != "isnil" || atoms[0].Truth || stripConvNoBind(atoms[0].X) != ssa.Value(ep) {
+			return false, fname(h) + " does not revert exactly when its error is non-nil"
+		}
+		// every path with a non-nil error reaches the revert: the test is in the entry block
+		if len(h.Blocks) == 0 || rev.Block().Idom() != h.Blocks[0] {
+			return false, fname(h) + " can leave before the error test"
+		}
+		burn := false
+		for _, u := range callInstrs(h) {
+			o := calleeObj(u)
+			if o == nil || o.Name() != "UseGas" || !instrDominates(rev, u) {
+				continue
+			}
+			if f, _ := loadedField(stripConvNoBind(callArgs(u)[0])); f == nil || f.Name() != "Gas" {
+				continue
+			}
+			for _, a := range atomsOf(factsAtInstr(u)) {
+				if a.Kind == "eq" && !a.Truth {
+					for _, v := range []ssa.Value{a.X, a.Y} {
+						if ld, ok := v.(*ssa.UnOp); ok && ld.X == ssa.Value(revertedErr) {
+							burn = true
+						}
+					}
+				}
+			}
+		}
+		if !burn {
+			return false, fname(h) + " does not burn the remaining gas under err != errExecutionReverted"
+		}
+		return true, fname(h) + "(snapshot, err) reverts under err != nil and burns gas unless reverted"
+	}
+	return false, ""
+}
+
+// stripConvNoBind strips conversions without resolving helper parameters.
+func stripConvNoBind(v ssa.Value) ssa.Value {
+	for {
+		switch x := v.(type) {
+		case *ssa.ChangeType:
+			v = x.X
+		case *ssa.Convert:
+			v = x.X
+		case *ssa.ChangeInterface:
+			v = x.X
+		case *ssa.MakeInterface:
+			v = x.X
+		default:
+			return v
+		}
 	}
 }
